@@ -62,9 +62,17 @@ def full_config(overrides):
     return cfg
 
 
-def config_path(overrides):
+def config_path(overrides, alias=None):
     cfg = full_config(overrides)
     text = json.dumps(cfg, sort_keys=True)
+    if alias is not None:
+        # one file NAME for successive configurations (a build tree that regenerates its configuration in place): rewritten on every call, always the
+        # same length and the same modification time, so that name, size and time stamp say nothing about the contents
+        p = os.path.join(scratch_dir(), 'cfg-alias-%s.json' % alias)
+        with open(p, 'w') as f:
+            f.write(text.ljust(16384))
+        os.utime(p, (1000000000, 1000000000))
+        return p
     key = hashlib.blake2b(text.encode(), digest_size=8).hexdigest()
     d = scratch_dir()
     p = _scratch['cache'].get(key)
@@ -97,6 +105,24 @@ class RecRAM(RAM):
     def write(self, address, size, value):
         self.log.append((address, size, 1))
         super().write(address, size, value)
+
+
+class KeepRAM(RAM):
+    """RAM that also keeps the last data objects its write() was handed (as a FIFO or latch would), with a copy of their bytes at that moment."""
+
+    def __init__(self, size):
+        super().__init__(size)
+        self.kept = []
+
+    def write(self, address, size, value):
+        self.kept.append((value, bytes(value)))
+        del self.kept[:-12]
+        super().write(address, size, value)
+
+    def __deepcopy__(self, memo):
+        new = KeepRAM(self.size)                 # (a checkpoint holds the memory contents, not the objects in flight)
+        new.memory_array[:] = self.memory_array
+        return new
 
 
 class Intc(MemoryType):
@@ -167,7 +193,7 @@ def new_arm(core_spec, lines=None):
     """core_spec: {'config': overrides, 'devices': [...], 'regs': state, 'reset': bool}"""
     from . import solo as _solo
     _solo.constructed[0] += 1
-    arm = ArmV6(config_path(core_spec.get('config')))
+    arm = ArmV6(config_path(core_spec.get('config'), core_spec.get('config_alias')))
 
     def setup():
         taken = set()
@@ -186,6 +212,9 @@ def new_arm(core_spec, lines=None):
         if core_spec.get('reset', True):
             arm.take_reset()
         load_state(arm, core_spec.get('regs') or {})
+        if core_spec.get('monitors_pass') and hasattr(arm, 'is_exclusive_local') and hasattr(arm, 'is_exclusive_global'):
+            arm.is_exclusive_local = lambda *a, **k: True
+            arm.is_exclusive_global = lambda *a, **k: True
         cfg_ = core_spec.get('config') or {}
         if core_spec.get('custom_fetch') and not (cfg_.get('have_thumbee') or cfg_.get('have_jazelle')):
             install_custom_fetch(arm)
@@ -515,4 +544,4 @@ def dump_devices(arm, template):
 def snapshot_core_spec(arm, spec, arch_only=False):
     """a core spec that rebuilds exactly the current architectural state and memory of 'arm'"""
     return {'config': spec.get('config'), 'devices': dump_devices(arm, spec.get('devices', [])), 'regs': dump_state(arm, arch_only),
-            'reset': False, 'done_pc': spec.get('done_pc'), 'custom_fetch': spec.get('custom_fetch'), 'bystander': spec.get('bystander')}
+            'reset': False, 'done_pc': spec.get('done_pc'), 'custom_fetch': spec.get('custom_fetch'), 'bystander': spec.get('bystander'), 'monitors_pass': spec.get('monitors_pass')}
